@@ -187,7 +187,13 @@ def run(ck):
                      "rtw-testv-failed-both", "rtw-wrong-enabler-rejected-both", "rtw-share-deleted-both",
                      "lease-renewed-both", "abort-both", "chunk-loop-over-64k", "whole-share-get",
                      "not-found-both", "upload-timeout-both", "read-loop-over-64k",
-                     "large-duplicate-write", "large-write-conflict-in-later-block", "large-shifted-overlap-write")
+                     "large-duplicate-write", "large-write-conflict-in-later-block", "large-shifted-overlap-write",
+                     "rtw-via-adapter", "rtw-via-client",
+                     "advisory-written-both:non-ascii:immutable", "advisory-written-both:non-ascii:mutable",
+                     "advisory-written-both:ascii:immutable", "advisory-written-both:ascii:mutable",
+                     "rtw-test-must-be-new-on-existing-refused-both", "rtw-test-must-be-new-on-absent-passed-both",
+                     "rtw-test-size-exceeds-specimen-refused-both", "rtw-test-clipped-tail-passed-both",
+                     "rtw-test-size-below-specimen-refused-both")
     ck.exhaustive = False
 
 
@@ -481,7 +487,9 @@ def one_case(ck, ci, rng):
                 ck.hit("large-shifted-overlap-write")
             # (3) a body whose only conflicting byte lies in its 2nd or 3rd 64 KiB block
             if sh.state == "open":
-                start = rng.choice([b, a, a + rng.randint(1, 1000)])
+                # (from 0: the first block holds bytes never written before, so a pre-check that misses the later
+                #  conflict leaves them on disk; from b / a: everything before the conflict is identical data)
+                start = rng.choice([0, 0, 0, b, a, a + rng.randint(1, 1000)])
                 blk = rng.choice([1, 2])
                 pos = start + blk * K64 + rng.randrange(K64)
                 pos = min(pos, a + L - 1)
@@ -684,8 +692,15 @@ def one_case(ck, ci, rng):
             mutable = rng.random() < 0.5
             si = rng.choice(mut_sis if mutable else imm_sis)
             n = rng.randrange(5)
-            reason = rng.choice([b"hash mismatch in block 3", "Prüfsumme falsch ☃".encode("utf-8"), b"x" * 5000,
-                                 b"line1\nline2", b"a"])
+            if rng.random() < 0.75:          # mostly shares that exist, so that an advisory is really written
+                if mutable:
+                    have = [(m, k) for m in mut_sis for k in B.enumerate_mutable_shares(m)]
+                else:
+                    have = [(x.si, x.n) for x in shares.values() if x.state == "done"]
+                if have:
+                    si, n = rng.choice(have)
+            reason = rng.choice([b"hash mismatch in block 3", "Prüfsumme falsch ☃".encode("utf-8"),
+                                 "блок 7: неверный хеш".encode("utf-8"), b"x" * 5000, b"line1\nline2", b"a"])
             known = None
             if final:
                 kind = rng.choice(["empty", "non-utf8"])
@@ -698,9 +713,13 @@ def one_case(ck, ci, rng):
                         return "non-utf8-corruption-reason-fails-direct-only"
                     return None
             typ = b"mutable" if mutable else b"immutable"
+            nadv = len(disk_state(B.storedir)[1])
             step("advise", "advise_corrupt_share %s share %d reason=%d bytes" % (typ.decode(), n, len(reason)),
                  lambda: ist.advise_corrupt_share(typ, si, n, reason),
                  lambda: B.advise_corrupt_share(typ, si, n, reason), known=known)
+            if len(disk_state(B.storedir)[1]) > nadv:
+                ck.hit("advisory-written-both:" + ("non-ascii" if any(c > 127 for c in reason) else "ascii")
+                       + (":mutable" if mutable else ":immutable"))
 
         def mut_current(si):
             return {n: v[0] for n, v in B.slot_readv(si, [], [(0, 2 ** 30)]).items()}
@@ -714,17 +733,47 @@ def one_case(ck, ci, rng):
             big = rng.random() < 0.05
             twv_a, twv_b = {}, {}
             testv_ok = True
+            test_kinds = set()
+            all_should_pass = rng.random() < 0.5
             deletes = False
-            for n in rng.sample(range(4), rng.randint(0, 3)):
+            via = rng.choice(["adapter", "client"])
+            for n in rng.sample(range(4), rng.randint(0, 4)):
                 data = cur.get(n, b"")
                 testv = []
-                for _ in range(rng.choice([0, 0, 1, 2])):
-                    off = rng.randint(0, len(data) + 3)
-                    ln = rng.randint(0, 12)
-                    spec = data[off:off + ln]
-                    if rng.random() < 0.2:
-                        spec = spec[:-1] + b"!" if spec else b"?"
-                        testv_ok = testv_ok and (data[off:off + ln] == spec)
+                for _ in range(rng.choice([0, 0, 1, 1, 2])):
+                    kind = rng.choice(["exact", "exact", "exact", "must-be-new", "must-be-new", "short-prefix", "short-prefix",
+                                       "clipped-tail", "long-specimen"])
+                    if all_should_pass:      # every test of this request holds: one mis-marshalled vector flips the result
+                        kind = rng.choice(["exact", "exact", "clipped-tail"] + ([] if data else ["must-be-new"]))
+                    if kind == "exact":
+                        off = rng.randint(0, len(data) + 3)
+                        ln = rng.choice([0, 1, 2, 3, 5, 8, 12])
+                        spec = data[off:off + ln]
+                        if rng.random() < 0.2 and not all_should_pass:
+                            spec = spec[:-1] + b"!" if spec else b"?"
+                    elif kind == "must-be-new":          # what mutable/layout.py sends for a share it believes new
+                        off, ln, spec = 0, 1, b""
+                        test_kinds.add("must-be-new-on-" + ("existing" if data else "absent"))
+                    elif kind == "short-prefix":         # size N, specimen = a shorter (correct / incorrect) prefix
+                        ln = rng.randint(2, 12)
+                        off = rng.randint(0, max(0, len(data) - ln))
+                        k = rng.randint(0, ln - 1)
+                        spec = data[off:off + k]
+                        if spec and rng.random() < 0.3:
+                            spec = spec[:-1] + bytes([spec[-1] ^ 1])
+                        if len(data[off:off + ln]) > len(spec):
+                            test_kinds.add("size-exceeds-specimen")
+                    elif kind == "clipped-tail":         # span reaches past the end; specimen = the correctly clipped tail
+                        off = max(0, len(data) - rng.randint(0, 6))
+                        ln = len(data) - off + rng.randint(1, 20)
+                        spec = data[off:]
+                        test_kinds.add("clipped-tail")
+                    else:                                # size < len(specimen): right bytes followed by more
+                        ln = rng.randint(0, 8)
+                        off = rng.randint(0, max(0, len(data) - ln))
+                        spec = data[off:off + ln] + rng.randbytes(rng.randint(1, 4))
+                        test_kinds.add("size-below-specimen")
+                    testv_ok = testv_ok and (data[off:off + ln] == spec)
                     testv.append((off, ln, spec))
                 datav = []
                 for _ in range(rng.choice([0, 1, 1, 2, 3])):
@@ -740,11 +789,33 @@ def one_case(ck, ci, rng):
 
             def norm(v):
                 return (bool(v[0]), {int(k): [bytes(x) for x in vs] for k, vs in v[1].items()})
-            ra, rb = step("rtw", "read-test-write shares=%s new_length=%s wrong_we=%s readv=%s"
-                          % (sorted(twv_a), [twv_a[n][2] for n in sorted(twv_a)], wrong_we, readv),
-                          lambda: ist.slot_testv_and_readv_and_writev(si, (we, renew, cancel), twv_a, readv),
+            def fa():
+                if via == "adapter":
+                    return ist.slot_testv_and_readv_and_writev(si, (we, renew, cancel), twv_a, readv)
+                from allmydata.storage.http_client import TestVector, WriteVector, ReadVector, TestWriteVectors
+
+                async def go():
+                    r = await A.mut.read_test_write_chunks(
+                        si, we, renew, cancel,
+                        {n: TestWriteVectors(test_vectors=[TestVector(offset=o, size=l, specimen=sp) for o, l, sp in tv],
+                                             write_vectors=[WriteVector(offset=o, data=d) for o, d in dv],
+                                             new_length=nl)
+                         for n, (tv, dv, nl) in twv_a.items()},
+                        [ReadVector(offset=o, size=l) for o, l in readv])
+                    return (r.success, r.reads)
+                return go()
+            ra, rb = step("rtw", "read-test-write via %s shares=%s tests=%s new_length=%s wrong_we=%s readv=%s"
+                          % (via, sorted(twv_a), [[(o, l, len(sp)) for o, l, sp in twv_a[n][0]] for n in sorted(twv_a)],
+                             [twv_a[n][2] for n in sorted(twv_a)], wrong_we, readv),
+                          fa,
                           lambda: B.slot_testv_and_readv_and_writev(si, (we, renew, cancel), twv_b, readv),
                           norm, norm)
+            if rb[0] == "ok" and rb[1][0] != testv_ok:
+                ck.observe("rtw-eq-test-model-and-direct-disagree")      # C24's business; not judged here
+            if rb[0] == "ok":
+                ck.hit("rtw-via-" + via)
+                for k in test_kinds:
+                    ck.hit("rtw-test-%s-%s-both" % (k, "passed" if rb[1][0] else "refused"))
             if rb[0] == "err" and rb[1] == "bad-secret":
                 ck.hit("rtw-wrong-enabler-rejected-both")
             elif rb[0] == "ok":
@@ -828,7 +899,7 @@ def one_case(ck, ci, rng):
 
         OPS = [(op_alloc, 10), (op_write, 26), (op_finish, 6), (op_abort, 3), (op_read, 14), (op_read_whole, 4),
                (op_list, 4), (op_lease, 7), (op_advise, 4), (op_rtw, 14), (op_readv, 8), (op_mut_chunk, 4),
-               (op_mut_list, 2), (op_time, 5), (op_version, 1)]
+               (op_mut_list, 4), (op_time, 5), (op_version, 1)]
         fns = [f for f, _w in OPS]
         wts = [w for _f, w in OPS]
         nops = rng.randint(40, 70)
